@@ -165,11 +165,11 @@ macro_rules! k5 {
     };
 }
 
-//@ k5_cnf_1x1 props=C02,C01,C04,C08:t tier=quick expect=pass fns=eval_conjunction_clauses :: CNF combinator, 1 line x 1 alternative, leaf outcome symbolic in {PASS,FAIL,SKIP,Err}: status = documented rule; no Disjunction record for a single alternative; start/end balanced; Err propagates
+//@ k5_cnf_1x1 props=C02,C01:t,C04,C08:t tier=quick expect=pass fns=eval_conjunction_clauses :: CNF combinator, 1 line x 1 alternative, leaf outcome symbolic in {PASS,FAIL,SKIP,Err}: status = documented rule; no Disjunction record for a single alternative; start/end balanced; Err propagates
 k5!(k5_cnf_1x1, 1, 1, true, 4);
-//@ k5_cnf_1x2 props=C02,C01,C04,C08:t tier=quick expect=pass fns=eval_conjunction_clauses :: CNF 1x2, leaves symbolic incl. Err: short-circuit after first PASS (alternative 2 not evaluated), one Disjunction record with the line status, balanced, Err closes the open record
+//@ k5_cnf_1x2 props=C02,C01:t,C04,C08:t tier=quick expect=pass fns=eval_conjunction_clauses :: CNF 1x2, leaves symbolic incl. Err: short-circuit after first PASS (alternative 2 not evaluated), one Disjunction record with the line status, balanced, Err closes the open record
 k5!(k5_cnf_1x2, 1, 2, true, 5);
-//@ k5_cnf_2x1 props=C02,C01,C04,C08:t tier=quick expect=pass fns=eval_conjunction_clauses :: CNF 2x1, leaves symbolic incl. Err: every line evaluated (no short-circuit across lines) unless an error aborts; FAIL iff a line failed, PASS iff none failed and one passed, else SKIP
+//@ k5_cnf_2x1 props=C02,C01:t,C04,C08:t tier=quick expect=pass fns=eval_conjunction_clauses :: CNF 2x1, leaves symbolic incl. Err: every line evaluated (no short-circuit across lines) unless an error aborts; FAIL iff a line failed, PASS iff none failed and one passed, else SKIP
 k5!(k5_cnf_2x1, 2, 1, true, 5);
 //@ k5_cnf_2x2 props=C02,C01,C04,C08 tier=quick expect=pass fns=eval_conjunction_clauses :: CNF 2x2 (4^4 leaf outcome vectors incl. Err in one query): status, evaluation set, Disjunction records (count, order, status), balance, error propagation
 k5!(k5_cnf_2x2, 2, 2, true, 5);
